@@ -178,6 +178,31 @@ impl Fixture {
         add("next_address@mid", 1, Arc::new(|w, _| e(w.db.get_next_available_address(w.acct_a, UnifiedAddressRequest::AllAvailableKeys)).map(|r| format!("{:?}", r.map(|x| x.1)))));
         add("reserve_ephemeral@mid", 1, Arc::new(|w, _| e(w.db.reserve_next_n_ephemeral_addresses(w.acct_a, 3)).map(|r| r.len().to_string())));
         add("reserve_internal@mid", 1, Arc::new(|w, _| e(w.db.reserve_next_n_internal_addresses(w.acct_a, 2)).map(|r| r.len().to_string())));
+        // --- a transparent UTXO reported by the server for the account's lowest receiver (mined at
+        // FIRST+1, inside the scanned range of "mid"; and un-mined)
+        for (opname, mined) in [("put_utxo_mined@mid", true), ("put_utxo_unmined@mid", false)] {
+            add(
+                opname,
+                1,
+                Arc::new(move |w, _| {
+                    use zcash_client_backend::data_api::WalletRead;
+                    use zcash_client_backend::wallet::WalletTransparentOutput;
+                    use zcash_transparent::bundle::{OutPoint, TxOut};
+                    let recv = e(w.db.get_transparent_receivers(w.acct_a, false, false))?;
+                    let addr = *recv.keys().min_by_key(|a| format!("{a:?}")).ok_or("account A has no transparent receiver")?;
+                    let out = WalletTransparentOutput::from_parts(
+                        OutPoint::new([0x5A; 32], 1),
+                        TxOut::new(zcash_protocol::value::Zatoshis::const_from_u64(77_000), addr.script().into()),
+                        mined.then(|| BlockHeight::from_u32(FIRST + 1)),
+                        None,
+                        None,
+                        None,
+                    )
+                    .ok_or("not a wallet script")?;
+                    e(w.db.put_received_transparent_utxo(&out)).map(|r| format!("{r:?}").chars().take(8).collect())
+                }),
+            );
+        }
         // --- subtree roots
         // Each put_*_subtree_roots call is one wallet write operation (one transaction).
         for (opname, pool) in [("sapling_roots@fresh", Pool::Sapling), ("orchard_roots@fresh", Pool::Orchard)] {
@@ -279,6 +304,8 @@ impl Fixture {
             let pre_b = pres.len() - 1;
             let mut add8 = |name: &str, pre: usize, f: Arc<OpFn>| ops.push(OpDef { name: name.to_string(), pre, f, env: 1 });
             add8("store_sent_p0@c08-full", pre_a, Arc::new(|w, fx| fx.env8.store_pending(w, 0).map(|_| String::new())));
+            // both pending transactions in ONE call (as a multi-step proposal does): all or nothing
+            add8("store_sent_batch_p0_p1@c08-full", pre_a, Arc::new(|w, fx| fx.env8.store_pending_batch(w, &[0, 1]).map(|_| String::new())));
             add8("store_sent_p1@c08-pending0", pre_b, Arc::new(|w, fx| fx.env8.store_pending(w, 1).map(|_| String::new())));
             add8("store_sent_p0_again@c08-pending0", pre_b, Arc::new(|w, fx| fx.env8.store_pending(w, 0).map(|_| String::new())));
             let decrypted = |w: &mut Wallet, env: &Env, p: usize, mined: Option<u32>| -> Result<String, String> {
